@@ -422,6 +422,11 @@ def make_primitives(S: Scheduler):
     class VirtualTime:
         @staticmethod
         def time():
+            # wall-clock mode (S.tick_eps > 0): a strictly increasing clock - on a real clock two readings never coincide, and rex's wall
+            # clock relies on it (a step of duration exactly 0 raises "Did you overwrite step_state.ts ...")
+            eps = getattr(S, "tick_eps", 0.0)
+            if eps:
+                S.now += eps
             return S.now
 
         @staticmethod
